@@ -22,7 +22,8 @@ def is_parallel_njit(fn):
 
 
 def is_cuda_kernel(fn):
-    return any(name in ("cuda.jit", "_cuda.jit", "numba.cuda.jit") for name, _ in decorators(fn))
+    # a device function (cuda.jit(device=True)) is a helper inlined into the launching kernel's thread, not a kernel of its own
+    return any(name in ("cuda.jit", "_cuda.jit", "numba.cuda.jit") and kws.get("device") is not True for name, kws in decorators(fn))
 
 
 def _assigned(stmts):
